@@ -504,6 +504,24 @@ theorem needCreate_spec (r : Remote) (root : Nat) : ∀ (rev : List Str) (need :
           refine ⟨ha, hb.trans ?_⟩
           rw [List.reverse_cons]; exact List.prefix_append _ _
 
+/-- on names that are not `..` the loop with the extra test is the loop without it -/
+theorem needCreateSkip_eq (r : Remote) (root : Nat) : ∀ (rev : List Str), (∀ x ∈ rev, x ≠ dotdot) →
+    needCreateSkip r root rev = needCreate r root rev := by
+  intro rev
+  induction rev with
+  | nil => intro _; rfl
+  | cons x up ih =>
+    intro h
+    unfold needCreateSkip needCreate
+    rw [if_neg (h x (by simp)), ih (fun y hy => h y (by simp [hy]))]
+
+theorem needCreateNow_eq (r : Remote) (root : Nat) (rev : List Str) (h : ∀ x ∈ rev, x ≠ dotdot) :
+    needCreateNow r root rev = needCreate r root rev := by
+  unfold needCreateNow
+  split
+  · exact needCreateSkip_eq r root rev h
+  · rfl
+
 theorem ROK.of_ensured {r r' : Remote} (hr : ROK r) {p : PPath} (hp : SafeP p) (hc : r'.cwd = r.cwd)
     (hlk : ∀ q, lookup r'.fs q = ensured r.fs (landing r.cwd p) q) (hnf : NoFilePrefix r.fs (landing r.cwd p)) :
     ROK r' := by
@@ -531,6 +549,7 @@ theorem makeDirectory_spec {r r' : Remote} {p : PPath} (hr : ROK r) (hp : SafeP 
     (h : makeDirectory r p = .ok r') :
     r'.cwd = r.cwd ∧ r'.mlsx = r.mlsx ∧ (∀ q, lookup r'.fs q = ensured r.fs (landing r.cwd p) q) ∧ ROK r' := by
   unfold makeDirectory at h
+  rw [needCreateNow_eq r p.root p.parts.reverse (fun x hx => (hp.2 x (List.mem_reverse.mp hx)).1.2.2.1)] at h
   split at h
   · cases h
   · rename_i need hneed
